@@ -16,11 +16,12 @@ import progrun
 import pyprog
 
 TWIN_EXTRA = '''
-class DeclError(Exception):
-    pass
+class PteraNameError(Exception):
+    """the twin's stand-in: same class NAME as ptera's error (the name reaches logged helpers when the
+    exception object is passed on as a value)"""
 
 def _decl_fail(name):
-    raise DeclError(name)
+    raise PteraNameError(name)
 '''
 
 
@@ -143,18 +144,15 @@ def run(chk):
             stats["runs"] += 1
             # normalise the twin's DeclError to what ptera must raise
             w = json.loads(json.dumps(want))
-            if w["outcome"][0] == "exc" and w["outcome"][1] == "DeclError":
+            if w["outcome"][0] == "exc" and w["outcome"][1] == "PteraNameError":
                 stats["reached_decl"] += 1
                 if fn["generator"]:
                     w["outcome"] = ["exc", "NameError", w["outcome"][2]]
                 else:
                     w["outcome"] = ["exc", "Boom", "DECL:" + w["outcome"][2]]
-            for e in w.get("log", []):
-                if e and e[0] == "exit" and e[-1] == "DeclError":
-                    e[-1] = "PteraNameError"
             g = got
             chk.count(src + mode + json.dumps([args, script, gscript, sorted(supplied.items())]),
-                      nontrivial=want["outcome"][:2] == ["exc", "DeclError"] or any(v in supplied for v in decls))
+                      nontrivial=want["outcome"][:2] == ["exc", "PteraNameError"] or any(v in supplied for v in decls))
             chk.dist("mode:" + mode); chk.dist("twin:" + want["outcome"][0] + (":" + want["outcome"][1] if want["outcome"][0] == "exc" else ""))
             replay = {"source": src, "mode": mode, "supplied": supplied, "args": args, "script": script,
                       "gen_script": gscript, "twin": want, "instrumented": got}
